@@ -26,8 +26,12 @@ var c06Examples = []gram.ExampleSpec{
 
 func c06Opts(r *mon.RNG, i int) *gram.GenOpts {
 	prof := []int{gram.ProfStateful, gram.ProfDefault, gram.ProfLower, gram.ProfScanCfg}[i%4]
-	return &gram.GenOpts{Profile: prof, MaxProds: 5, Budget: 12 + r.Intn(14), Depth: 2 + r.Intn(3), TokKinds: true, Unions: true,
+	o := &gram.GenOpts{Profile: prof, MaxProds: 5, Budget: 12 + r.Intn(14), Depth: 2 + r.Intn(3), TokKinds: true, Unions: true,
 		SharePrefix: 5, CaptureBias: 5, SubBias: 4, AllowBang: true, NamesElided: i%8 == 7}
+	if o.NamesElided {
+		o.Profile = gram.ProfStateful // only this profile has elided token types a grammar can name
+	}
+	return o
 }
 
 // c06ErrorOracle checks a non-nil error for well-formedness. L/lexErr are
@@ -267,7 +271,48 @@ func c06One(c *mon.Child, key string, b gram.Built, who, input, fname string, us
 	}
 }
 
+// c06FlatG is a flat list grammar over a lexer with lexer-elided rules: a
+// very long flat input (mostly elided tokens) must parse with bounded stack.
+type c06FlatG struct {
+	Items []string `@Ident*`
+}
+
+var c06FlatLexer = lexer.MustSimple([]lexer.SimpleRule{{Name: "comment", Pattern: `#[^\n]*`}, {Name: "nl", Pattern: `[\n ]`}, {Name: "Ident", Pattern: `[a-z]+`}})
+
+func c06FlatLexing(c *mon.Child) {
+	p, err := participle.Build[c06FlatG](participle.Lexer(c06FlatLexer))
+	if err != nil {
+		c.Violation("", "flatlex", "flat list grammar does not build: "+err.Error(), nil)
+		return
+	}
+	for i, in := range []string{strings.Repeat("# c\n", 400000) + "a b", strings.Repeat("a # c\n", 100000), strings.Repeat("\n", 1500000)} {
+		key := fmt.Sprintf("flatlex%d", i)
+		if !c.Want(key) {
+			continue
+		}
+		c.Begin(key, fmt.Sprintf("flat list grammar over a lexer with elided rules <- %q (%d bytes)", trunc(in, 40), len(in)))
+		c.Eval(1)
+		var v *c06FlatG
+		var perr error
+		pn, pv, st := mon.Guard(func() { v, perr = p.ParseString("", in) })
+		switch {
+		case pn:
+			c.Violation("", key, "ParseString panicked on a long flat input: "+pv+" at "+st, nil)
+		case perr != nil:
+			c.Violation("", key, "valid long flat input rejected: "+perr.Error(), nil)
+		case v == nil:
+			c.Violation("", key, "nil AST and nil error", nil)
+		}
+		c.Feature("long_flat_inputs_of_lexer_elided_tokens")
+		c.Nontrivial(key)
+		c.End(key)
+	}
+}
+
 func c06Child(c *mon.Child) {
+	if c.Batch == 0 {
+		c06FlatLexing(c)
+	}
 	// Part A: generated grammars x arbitrary bytes / soup / near-derivations
 	nInputs := c.N(60, 150)
 	for gi, h := range gram.Registry {
